@@ -17,6 +17,7 @@ import (
 	"os"
 	"path/filepath"
 	"strings"
+	"sync"
 	"time"
 
 	"github.com/opencontainers/image-spec/specs-go"
@@ -490,6 +491,75 @@ func runC06c(seed int64, tier string, sc *Script) map[string]any {
 			ops++
 		}
 	}
+	// Tag racing Delete on an OCI layout: whatever the interleaving, afterwards a reference
+	// that resolves names content that exists (Tag then Delete leaves no tag; Delete then Tag is
+	// refused with not-found)
+	races := 600
+	if tier == "thorough" {
+		races = 4000
+	}
+	rrng := rand.New(rand.NewSource(seed))
+	bad := ""
+	for ri := 0; ri < races && bad == ""; ri++ {
+		dir := filepath.Join(tmp, fmt.Sprintf("race%d", ri))
+		o, err := oci.New(dir)
+		if err != nil {
+			panic(err)
+		}
+		cfg := []byte("{}")
+		cd := descOf(ocispec.MediaTypeImageConfig, cfg)
+		m := ocispec.Manifest{Versioned: specs.Versioned{SchemaVersion: 2}, MediaType: ocispec.MediaTypeImageManifest, Config: cd,
+			Layers: []ocispec.Descriptor{}, Annotations: map[string]string{"race": fmt.Sprint(ri)}}
+		mb, _ := json.Marshal(m)
+		md := descOf(ocispec.MediaTypeImageManifest, mb)
+		o.Push(ctx, cd, bytes.NewReader(cfg))
+		if err := o.Push(ctx, md, bytes.NewReader(mb)); err != nil {
+			panic(err)
+		}
+		// a few tags first make the index rewrite inside Delete take longer
+		for k := 0; k < 6; k++ {
+			o.Tag(ctx, md, fmt.Sprintf("pre%d", k))
+		}
+		taggers := 4 + rrng.Intn(6)
+		start := make(chan struct{})
+		var wg sync.WaitGroup
+		for k := 0; k < taggers; k++ {
+			wg.Add(1)
+			go func(k int) {
+				defer wg.Done()
+				<-start
+				for r := 0; r < 3; r++ {
+					o.Tag(ctx, md, fmt.Sprintf("t%d-%d", k, r))
+				}
+			}(k)
+		}
+		wg.Add(1)
+		go func() {
+			defer wg.Done()
+			<-start
+			o.Delete(ctx, md)
+		}()
+		close(start)
+		wg.Wait()
+		exists, _ := o.Exists(ctx, md)
+		var tags []string
+		o.Tags(ctx, "", func(ts []string) error { tags = append(tags, ts...); return nil })
+		for _, t := range tags {
+			if d, err := o.Resolve(ctx, t); err == nil && d.Digest == md.Digest && !exists {
+				bad = fmt.Sprintf("round-%d:tag-%s-resolves-to-deleted-content", ri, t)
+				break
+			}
+		}
+		os.RemoveAll(dir)
+		ops++
+	}
+	v := "consistent"
+	if bad != "" {
+		v = bad
+	}
+	sc.Case("tag-races-delete oci")
+	sc.NonTrivial()
+	sc.Op(v, "s tagrace rounds=%d", races)
 	sc.Extra["evaluations"] = ops
 	return nil
 }
